@@ -644,6 +644,11 @@ func (f *frame) applyContract(con *Contract, key string, args []Val, rt *types.T
 	}
 	post.heap = st.heap
 	for _, cl := range con.Ensures {
+		if strings.Contains(cl.Src, "resultof(") || strings.Contains(cl.Src, "called(") {
+			// a clause about the calls the callee makes itself: an obligation of the callee, nothing a
+			// caller can use (the caller is told less, which is sound)
+			continue
+		}
 		t, err := g.trBool(cl.E, post)
 		if err != nil {
 			g.errorf("contract %s: ensures %s: %v", con.Name, cl.Src, err)
@@ -861,8 +866,11 @@ func (f *frame) builtin(c *ssa.CallCommon, name string, args []Val, st *State, p
 		g.assignArr(st.heap, "G!chan!closed", "Bool", fmt.Sprintf("(store %s %s true)", cl, ch.T))
 		return Val{Ty: rt}
 	case "recover":
-		// sequential VCs describe non-panicking executions: recover() returns nil
-		return Val{T: "iface-nil", Ty: tyAny}
+		// non-nil exactly in the panicking case (recovered!), which only exists while a function that calls
+		// recover() is verified under its own contract; everywhere else recovered! is assumed false
+		v := g.havocVal(g.fresh("recover"), tyAny, st.reach)
+		g.assumeUnder(st.reach, fmt.Sprintf("(and (= (= (i-tag %s) 0) (not recovered!)) (=> (not recovered!) (= %s iface-nil)))", v.T, v.T))
+		return v
 	case "print", "println":
 		return Val{Ty: rt}
 	case "ssa:wrapnilchk":
